@@ -992,6 +992,23 @@ pub fn leaves() -> Vec<Leaf> {
         }
     }
 
+    // empty byte arrays through constants (no Load(Bytes(0)) involved)
+    {
+        let e = || C(Val::Bytes(vec![]));
+        out.push(leaf("is_equal/bytes0-const", IsEqual, vec![e(), e()], 1));
+        out.push(leaf("assert_equal/bytes0-const", AssertEqual, vec![e(), e()], 0));
+        out.push(leaf("assert_not_equal/bytes0-const", AssertNotEqual, vec![e(), e()], 0));
+        out.push(leaf("sha256/const-0", Sha256, vec![e()], 1));
+        out.push(leaf("sha512/const-0", Sha512, vec![e()], 1));
+        out.push(leaf("from_bytes/native/const-0", FromBytes(IrType::Native), vec![e()], 1));
+        out.push(leaf("from_bytes/big/const-0", FromBytes(IrType::BigUint(0)), vec![e()], 1));
+        out.push(leaf("from_bytes/big1/const-0", FromBytes(IrType::BigUint(1)), vec![e()], 1));
+        let mut l = leaf("from_bytes/scalar/const-0", FromBytes(IrType::JubjubScalar), vec![e()], 1);
+        l.prog.insert(0, ins(Load(IrType::JubjubScalar), &[], &["s"]));
+        l.wit.insert("s".into(), Val::Scalar(1u32.into()));
+        out.push(l);
+    }
+
     // add / sub / mul / neg
     for (l, a, b) in [
         ("native-wrap", nat(&p - 1u32), nat(n1.clone())),
@@ -1178,7 +1195,67 @@ pub const VARIANT_KINDS: [&str; 11] = [
 ];
 
 const OTHER_TYPES: [IrType; 7] =
-    [IrType::Bool, IrType::Bytes(3), IrType::Native, IrType::BigUint(64), IrType::JubjubPoint, IrType::JubjubScalar, IrType::Bytes(0)];
+    [IrType::Bool, IrType::Bytes(3), IrType::Native, IrType::BigUint(64), IrType::JubjubPoint, IrType::JubjubScalar, IrType::Bytes(33)];
+
+pub const N_UNSUPPORTED: usize = 16;
+
+/// An operation applied to a type its documentation excludes: (declared type, witness, operation,
+/// second operand: "same" = the same variable, otherwise a constant).
+pub fn unsupported_shape(i: usize) -> (IrType, Val, Operation, Option<&'static str>) {
+    use Operation::*;
+    match i {
+        0 => (IrType::JubjubScalar, Val::Scalar(5u32.into()), IsEqual, Some("same")),
+        1 => (IrType::JubjubScalar, Val::Scalar(5u32.into()), AssertEqual, Some("same")),
+        2 => (IrType::JubjubScalar, Val::Scalar(5u32.into()), AssertNotEqual, Some("JubjubScalar:06")),
+        3 => (IrType::Bool, Val::Bool(true), Add, Some("same")),
+        4 => (IrType::JubjubScalar, Val::Scalar(5u32.into()), IntoBytes(32), None),
+        5 => (IrType::JubjubPoint, Val::Point(point_generator()), IntoBytes(33), None),
+        6 => (IrType::Bytes(4), Val::Bytes(vec![1, 2, 3, 4]), FromBytes(IrType::Bool), None),
+        7 => (IrType::Bytes(5), Val::Bytes(vec![1, 2, 3, 4, 5]), FromBytes(IrType::BigUint(39)), None),
+        8 => (IrType::Bytes(31), Val::Bytes(vec![1; 31]), FromBytes(IrType::JubjubPoint), None),
+        9 => (IrType::BigUint(64), Val::Big(5u32.into()), Neg, None),
+        10 => (IrType::Bytes(2), Val::Bytes(vec![1, 2]), IsEqual, Some("0x010203")),
+        11 => (IrType::Native, Val::Native(5u32.into()), Sha256, None),
+        12 => (IrType::Bytes(2), Val::Bytes(vec![1, 2]), AssertNotEqual, Some("0x010203")),
+        13 => (IrType::Native, Val::Native(5u32.into()), AssertNotEqual, Some("BigUint:06")),
+        14 => (IrType::JubjubPoint, Val::Point(point_generator()), Mul, Some("JubjubScalar:02")),
+        _ => (IrType::BigUint(64), Val::Big(5u32.into()), Poseidon, None),
+    }
+}
+
+/// Fixed ill-typed programs: every unsupported shape, alone and after a `Publish` (the latter
+/// makes `public_inputs` derive the public-input types through the circuit).
+pub fn illtyped_fixed() -> Vec<Leaf> {
+    use Operation::*;
+    let mut out = vec![];
+    for i in 0..N_UNSUPPORTED {
+        for with_publish in [false, true] {
+            let (t, v, op, extra) = unsupported_shape(i);
+            let mut prog = vec![];
+            let mut wit = Wit::new();
+            if with_publish {
+                prog.push(ins(Load(IrType::Native), &[], &["x"]));
+                wit.insert("x".into(), Val::Native(7u32.into()));
+                prog.push(ins(Publish, &["x"], &[]));
+            }
+            prog.push(ins(Load(t), &[], &["a"]));
+            wit.insert("a".into(), v);
+            let mut inputs = vec!["a".to_string()];
+            match extra {
+                Some("same") => inputs.push("a".into()),
+                Some(c) => inputs.push(c.to_string()),
+                None => {}
+            }
+            let n_out = match op {
+                AssertEqual | AssertNotEqual => 0,
+                _ => 1,
+            };
+            prog.push(Instruction { operation: op, inputs, outputs: (0..n_out).map(|k| format!("o{k}")).collect() });
+            out.push(Leaf { label: format!("unsupported/{i}-{}{}", op_name(&op), if with_publish { "/after-publish" } else { "" }), prog, wit });
+        }
+    }
+    out
+}
 
 pub fn malformed_constants() -> Vec<String> {
     let p = p_mod();
@@ -1384,20 +1461,7 @@ pub fn variant(kind: &'static str, prog: &Prog, wit: &Wit, rng: &mut ChaCha8Rng)
             // an operation applied to a type its documentation excludes
             use Operation::*;
             let n = format!("zz{}", rng.gen_range(0..1000));
-            let (t, v, op, extra): (IrType, Val, Operation, Option<&str>) = match rng.gen_range(0..12) {
-                0 => (IrType::JubjubScalar, Val::Scalar(5u32.into()), IsEqual, Some("same")),
-                1 => (IrType::JubjubScalar, Val::Scalar(5u32.into()), AssertEqual, Some("same")),
-                2 => (IrType::JubjubScalar, Val::Scalar(5u32.into()), AssertNotEqual, Some("JubjubScalar:06")),
-                3 => (IrType::Bool, Val::Bool(true), Add, Some("same")),
-                4 => (IrType::JubjubScalar, Val::Scalar(5u32.into()), IntoBytes(32), None),
-                5 => (IrType::JubjubPoint, Val::Point(point_generator()), IntoBytes(33), None),
-                6 => (IrType::Bytes(4), Val::Bytes(vec![1, 2, 3, 4]), FromBytes(IrType::Bool), None),
-                7 => (IrType::Bytes(5), Val::Bytes(vec![1, 2, 3, 4, 5]), FromBytes(IrType::BigUint(39)), None),
-                8 => (IrType::Bytes(31), Val::Bytes(vec![1; 31]), FromBytes(IrType::JubjubPoint), None),
-                9 => (IrType::BigUint(64), Val::Big(5u32.into()), Neg, None),
-                10 => (IrType::Bytes(2), Val::Bytes(vec![1, 2]), IsEqual, Some("0x010203")),
-                _ => (IrType::Native, Val::Native(5u32.into()), Sha256, None),
-            };
+            let (t, v, op, extra) = unsupported_shape(rng.gen_range(0..N_UNSUPPORTED));
             p.push(Instruction { operation: Load(t), inputs: vec![], outputs: vec![n.clone()] });
             w.insert(n.clone(), v);
             let mut inputs = vec![n.clone()];
